@@ -386,6 +386,24 @@ def explore(tier, seed):
     for sig, rp, detail in rps:
         if sig in known_open:
             violations.append(Violation(PROP, sig, detail[:600], rp, 1))
+    # plugin codemods on both pipelines with several workers: every interleaving of the per-file tasks with <= 1 preemption
+    # (line granularity in the pipeline modules) must give the outcome of the sequential run, whose edits are the findings' lines
+    from . import c11a
+
+    sched_cov = {}
+    for drv in ("regex-plugin", "xml-plugin"):
+        r = c11a.explore_parallel(drv, "line", 1)
+        sched_cov[drv] = {"executions": r["executions"], "distinct_outcomes": len(r["outcomes"]), "preemption_bound": 1}
+        if len(r["outcomes"]) != 1:
+            alt = [ch for h, ch in r["outcomes"].items() if h != r["root"]["hash"]][0]
+            sig = f"schedule|{drv}|edits-depend-on-interleaving"
+            if sig not in known_open:
+                s1, h1, _ = c11a.run_once(drv, alt, "line")
+                s2, h2, _ = c11a.run_once(drv, alt, "line")
+                if h1 != h2 or h1 == r["root"]["hash"]:
+                    divergence.append(sig)
+                    continue
+            violations.append(Violation(PROP, sig, f"{len(r['outcomes'])} distinct outcomes over {r['executions']} schedules of a plugin codemod on 3 files with 3 workers; e.g. schedule {alt[:30]}", {"schedule": drv, "choices": alt, "reference": r["root"]["hash"], "sig": sig}, 1))
     n_regex = sum(1 for c in cases if c[0] == "regex")
     coverage = {
         "states": len(cases),
@@ -400,6 +418,7 @@ def explore(tier, seed):
         "regex_alphabet": {"lines": LINE_KINDS, "eols": list(EOLS), "patterns": list(PATTERNS), "max_lines": 3 if tier == "quick" else 4},
         "xml_alphabet": {"children": CHILD, "prologs": list(PROLOG), "transformers": TRANSFORMS, "max_children": 2 if tier == "quick" else 3},
         "replay_divergence": divergence,
+        "plugin_codemod_schedules": sched_cov,
         "oracle_selftests": list(sf),
         "rule": "case = (content, shape, transformer, finding set); each executed twice (real and dry run) through the real pipeline classes; non-trivial = the pipeline has something to edit",
     }
@@ -413,6 +432,13 @@ def explore(tier, seed):
 
 
 def replay(rp):
+    if "schedule" in rp:
+        from . import c11a
+
+        drive.init_inproc()
+        _, h1, _ = c11a.run_once(rp["schedule"], rp["choices"], "line")
+        _, h0, _ = c11a.run_once(rp["schedule"], [], "line")
+        return (h1 == h0), f"schedule {rp['choices'][:40]} -> outcome {h1}; sequential schedule -> {h0}"
     c = rp["case"]
     case = tuple(tuple(x) if isinstance(x, list) else x for x in c)
     found, _ = eval_case(case)
